@@ -45,7 +45,15 @@ pub fn gen_env(rng: &mut Rng, allow_whole_only: bool) -> EnvPlan {
             v
         }
     };
-    EnvPlan { modes, stream, faults: vec![], crash: None, buffered: rng.chance(1, 2), shared_pos: rng.chance(1, 4) }
+    // derived from the stream value, not drawn: one in four plans hands the reader a source that
+    // does not stand at byte 0 (within the last 30 bytes, at the end, or anywhere up to 6000)
+    let h = crate::rng::mix(stream, 0x57a7);
+    let src_start = match h % 8 {
+        0 => -(1 + ((h >> 8) % 30) as i64),
+        1 => 1 + ((h >> 8) % 6000) as i64,
+        _ => 0,
+    };
+    EnvPlan { modes, stream, faults: vec![], crash: None, buffered: rng.chance(1, 2), shared_pos: rng.chance(1, 4), src_start }
 }
 
 pub fn gen_knobs(rng: &mut Rng, wide: bool) -> Knobs {
